@@ -626,6 +626,36 @@ def oracle_instance(chk, cfg, it, cast=None, stats=True):
         bad("repeatable:" + variant, "%s: same screen content and same generator state give a different row the second time "
             "(state leaks between calls)" % tag)
 
+    # --- the old phase stays what it was along a HISTORY (the identities are about the joint statistics of old and new phase: a
+    # row that is lost or overwritten some steps later breaks them as surely as a wrong A): more rows than the screen is long, so
+    # that any internal buffer wraps around at least twice; the stencil the next row is computed from is taken from the harness's
+    # own record of the rows returned so far
+    if length <= 24:
+        obj._scrn = scrn.copy()
+        shadow = scrn.copy()
+        for step in range(2 * length + 3):
+            st_before = copy.deepcopy(obj._R.bit_generator.state)
+            gb = clone_generator(obj._R)
+            bb = gb.standard_normal(nx)
+            obj.add_row()
+            now = numpy.array(obj._scrn, dtype=float, copy=True)
+            Zs = shadow[st[:, 0], st[:, 1]]
+            wrow = A @ Zs + B @ bb if variant == "vk" else A @ (Zs - shadow[1, 1]) + B @ bb + shadow[1, 1]
+            sc_ = numpy.abs(A) @ numpy.abs(Zs) + numpy.abs(B) @ numpy.abs(bb) + abs(shadow[1, 1] if variant == "fried" else 0.0) * (1 + numpy.abs(A).sum(1))
+            if now.shape != (length, nx) or not numpy.array_equal(now[1:], shadow[:-1]):
+                bad("old-phase:history:" + variant, "%s: after %d consecutive add_row() calls the rows generated earlier are no longer all "
+                    "there unchanged, one row further down (first difference in row %s of the working array)"
+                    % (tag, step + 1, (int(numpy.argwhere((now[1:] != shadow[:-1]).any(1))[0][0]) + 1) if now.shape == (length, nx) else "?"),
+                    screen=scrn.tolist(), steps=step + 1)
+                break
+            if obj._R.bit_generator.state == gb.bit_generator.state and not (numpy.abs(now[0] - wrow) <= 1e-10 * sc_ + 1e-300).all():
+                bad("row:history:" + variant, "%s: the row generated by the %d-th consecutive add_row() is not A·Z + B·b of the rows "
+                    "generated before it (max |Δ| = %.3g)" % (tag, step + 1, float(numpy.abs(now[0] - wrow).max())),
+                    screen=scrn.tolist(), steps=step + 1)
+                break
+            shadow = now
+        chk.count("oracle:history:%s:%d-rows" % (variant, 2 * length + 3))
+
     # --- Fried variant: adding a constant to the whole screen adds exactly that constant to the new row
     if variant == "fried":
         for c in (float(nprng.integers(1, 200)) / 8, -float(nprng.integers(1, 2000)) / 4):
